@@ -185,6 +185,9 @@ add("r10_6_unlimited_source", "C10", "R10.6", "unrounded",
 # ---- rules added after wave 3 --------------------------------------------------------------------
 add("r15_7_ctx_same_operand", "C15", "R15.7", "Context::max",
     [("float/src/mul.rs", "Context::max(self.context, rhs.context)", "Context::max(rhs.context, rhs.context)")])
+add("r15_1b_repr_form_kernel", "C15", "R15.1b", "AndNot",
+    [("integer/src/bits.rs", "(RefLarge(buffer0), RefLarge(buffer1)) => and_not_large(buffer0.into(), buffer1),",
+      "(RefLarge(buffer0), RefLarge(buffer1)) => bitxor_large(buffer0.into(), buffer1),")])
 add("r04_4b_relaxed_cubic", "C04", "R04.4b", "cubic",
     [("rational/src/mul.rs", "    /// See [RBig::cubic] for details.\n    #[inline]\n    pub fn cubic(&self) -> Self {\n        Self(self.0.cubic())", "    /// See [RBig::cubic] for details.\n    #[inline]\n    pub fn cubic(&self) -> Self {\n        Self(self.0.sqr())")])
 add("r04_5_inv_sign", "C04", "R04.5", "Repr::inv",
